@@ -84,6 +84,42 @@ def check_generic(c):
     eq(got, exp, "crc-generic!=bitwise-division")
 
 
+# 3b. several tables alive in one process: each keeps computing the CRC of its own polynomial, and the built-in
+# CRC-32 (module-level tables) is not disturbed by tables generated later
+def check_tables(c):
+    tables = []
+    for i, op in enumerate(c["ops"]):
+        if op[0] == "table":
+            N, P = op[1], op[2]
+            tables.append((N, P, guard(C.crc_table, Bits(P, N)), guard(C.crc_back_table, Bits(P, N)) if P >> (N - 1) else None))
+        elif op[0] == "crc" and tables:
+            N, P, t, bt = tables[op[1] % len(tables)]
+            mask = (1 << N) - 1
+            init, final = op[3] & mask, op[4] & mask
+            got = guard(C.crc, op[2], t, init, final)
+            eq(got, bitwise_crc(P, N, op[2], init, final), "table-history:earlier-table!=bitwise-division")
+            if bt is not None and op[2]:
+                pos = op[3] % len(op[2])
+                eq(guard(C.crc_back_pos, op[2], pos, bt, final, got), bitwise_crc(P, N, op[2][:pos], init, 0),
+                   "table-history:earlier-back-table!=forward-register")
+        elif op[0] == "crc32":
+            eq(guard(C.crc32, op[1]), zlib.crc32(op[1]), "table-history:crc32!=zlib")
+        elif op[0] == "fix" and len(op[1]) >= 4:
+            out = guard(C.crc32_fix, op[1], op[2])
+            expect(isinstance(out, bytes) and zlib.crc32(out) == op[2], "table-history:crc32_fix-misses-target", op[2], repr(out)[:60])
+
+
+def tables_strategy(tier):
+    def table(N):
+        return st.tuples(st.just("table"), st.just(N), gen.nbits(N), st.booleans()).map(lambda t: ("table", N, t[2] | (t[3] << (N - 1))))
+    width = gen.pick((2, st.sampled_from([8, 16, 32, 64])), (1, gen.uint(8, 64)))
+    data = gen.blob_of(gen.uint(0, 24))
+    op = gen.pick((3, width.flatmap(table)), (3, st.tuples(st.just("crc"), gen.uint(0, 7), data, gen.nbits(64), gen.nbits(64))),
+                  (2, st.tuples(st.just("crc32"), data)), (1, st.tuples(st.just("fix"), data, gen.nbits(32))))
+    return st.lists(op, min_size=2, max_size=8).map(
+        lambda l: {"ops": (("table", 32, 0xEDB88320),) + tuple(l) + (("crc", 0, b"123456789", 0xffffffff, 0xffffffff), ("crc32", b"123456789"), ("fix", b"123456789", 0x12345678))})
+
+
 # 4. backward computation inverts the forward one
 def back_strategy(tier):
     def build(N, praw, iraw, fraw, data, posraw, std):
@@ -173,6 +209,11 @@ FACETS = [
           classify=lambda c: ("N%8==0" if c["N"] % 8 == 0 else "N%8!=0", "N=%s" % ("8" if c["N"] == 8 else "64" if c["N"] == 64 else "9..63"),
                               "final=None" if c["final"] is None else "final given"),
           rule="width 8..64, any polynomial/init/final, data <= 40 B, oracle bitwise division"),
+    Facet("table-histories", check_tables, strategy=tables_strategy, budget={"quick": 600, "thorough": 10000},
+          nontrivial=lambda c: sum(1 for o in c["ops"] if o[0] == "table") >= 2,
+          classify=lambda c: ("tables=%d" % min(4, sum(1 for o in c["ops"] if o[0] == "table")),),
+          rule="5..12 operations in one process: generate forward/backward tables for several polynomials and widths, then compute with "
+               "EARLIER tables (== bitwise division, backward == forward register) and with the built-in CRC-32 (== zlib, crc32_fix hits its target)"),
     Facet("backward-inverse", check_back, strategy=back_strategy,
           budget={"quick": 1500, "thorough": 30000},
           nontrivial=lambda c: len(c["data"]) >= 2,
